@@ -281,6 +281,9 @@ fn tf_key(denom: &str) -> Vec<u8> {
 
 pub struct TfMock {
     pub fees: Rc<RefCell<Vec<Coin>>>,
+    /// probes only: accept the creation of a denom that already exists (as the repository's own
+    /// test mock does), to see whether the contracts' own checks hold without the chain's help
+    pub lenient: Rc<std::cell::Cell<bool>>,
     mon: MonRef,
 }
 
@@ -310,7 +313,7 @@ impl TfMock {
                 if m.subdenom.len() > 44 || denom.len() > 128 {
                     bail!("tokenfactory: invalid subdenom");
                 }
-                if storage.get(&tf_key(&denom)).is_some() {
+                if storage.get(&tf_key(&denom)).is_some() && !self.lenient.get() {
                     bail!("tokenfactory: denom {denom} already exists");
                 }
                 let fees = self.fees.borrow().clone();
@@ -723,6 +726,7 @@ pub struct World {
     pub app: DexApp,
     pub mon: MonRef,
     pub tf_fees: Rc<RefCell<Vec<Coin>>>,
+    pub tf_lenient: Rc<std::cell::Cell<bool>>,
     pub cfg: WorldCfg,
     pub owner: Addr,
     pub deployer: Addr,
@@ -749,6 +753,7 @@ impl World {
     pub fn new(cfg: WorldCfg) -> World {
         let mon: MonRef = Rc::new(RefCell::new(Mon::default()));
         let tf_fees = Rc::new(RefCell::new(cfg.tf_fees.clone()));
+        let tf_lenient = Rc::new(std::cell::Cell::new(false));
         let api = MockApiBech32::new("mantra");
         let owner = api.addr_make("owner");
         // the account that deploys (instantiates) the contracts that name their owner in the
@@ -764,6 +769,7 @@ impl World {
         };
         let tf = TfMock {
             fees: tf_fees.clone(),
+            lenient: tf_lenient.clone(),
             mon: mon.clone(),
         };
         let funds: Vec<Coin> = cfg
@@ -941,6 +947,7 @@ impl World {
             app,
             mon,
             tf_fees,
+            tf_lenient,
             cfg,
             owner,
             deployer,
